@@ -264,7 +264,7 @@ def parse_data(wire) -> ParsedData:
 class ParsedInterest:
     __slots__ = ('wire', 'name', 'els', 'can_be_prefix', 'must_be_fresh', 'nonce', 'lifetime',
                  'hop_limit', 'app_param', 'sig_info', 'sig_value', 'signed_portion',
-                 'digest_portion', 'params_digest', 'has_params_digest')
+                 'digest_portion', 'params_digest', 'has_params_digest', 'n_params_digest')
 
 
 def parse_interest(wire) -> ParsedInterest:
@@ -297,12 +297,14 @@ def parse_interest(wire) -> ParsedInterest:
     p.digest_portion = wire[ap[1]:ve] if ap else None
     p.params_digest = None
     p.has_params_digest = False
+    p.n_params_digest = 0
     for c in p.name:
         ct, n1 = dec_var(c, 0)
         if ct == T_PARAMS_DIGEST:
             _l, n2 = dec_var(c, n1)
             p.params_digest = c[n1 + n2:]
             p.has_params_digest = True
+            p.n_params_digest += 1
     if si is not None and ap is not None:
         name_part = b''.join(c for c in p.name if dec_var(c, 0)[0] != T_PARAMS_DIGEST)
         stop = sv[1] if sv is not None else ve
